@@ -184,6 +184,122 @@ fn run<T: Fl>(job: &Job, out: &mut JobOut) {
     }
 }
 
+/// Axes whose knots are not dyadic (0.7, 2.9, ...): no exact rational spline is available; the
+/// oracle is the implementation's own in-range value at the exactly wrapped query, with a
+/// Lipschitz allowance for the rounding of the wrapped argument. Finite queries must never be
+/// rejected.
+fn run_decimal(job: &Job, out: &mut JobOut) {
+    let x = &job.ax.x;
+    let n = x.len();
+    let key = format!("f64:decimal:{}", job.ax.name);
+    let mut d = Array2::from_shape_fn((n, 2), |(i, j)| ((i * 3 + j * 5) as f64 * 0.37).sin() * (1.0 + j as f64) + 0.1 * i as f64);
+    for j in 0..2 {
+        d[[n - 1, j]] = d[[0, j]];
+    }
+    let case = |extra: Vec<(&str, Json)>| {
+        let mut v = vec![("type", Json::str("f64")), ("x", Json::f64s(x)), ("axis_kind", Json::str("non-dyadic knots"))];
+        v.extend(extra);
+        Json::obj(v)
+    };
+    let (Ok(Ok(ip)), Ok(Ok(plain))) = (
+        catch(|| build_spline::<f64, _>(x, d.clone(), &BcSpec::Periodic, true)),
+        catch(|| build_spline::<f64, _>(x, d.clone(), &BcSpec::Periodic, false)),
+    ) else {
+        out.violate(format!("{key}:build"), "periodic build failed", case(vec![]));
+        return;
+    };
+    out.states += 1;
+    let (x0, xn) = (Rat::from_f64(x[0]), Rat::from_f64(x[n - 1]));
+    let p = xn - x0;
+    let pf = x[n - 1] - x[0];
+    // Lipschitz estimate from a fine in-range sampling of the implementation itself
+    let fine: Vec<f64> = (0..=64 * (n - 1)).map(|i| (x[0] + pf * i as f64 / (64 * (n - 1)) as f64).min(x[n - 1])).collect();
+    let Ok(fv) = call1d(&plain, &fine, &[fine.len()], 2, "interp_array/static") else {
+        out.violate(format!("{key}:fine"), "in-range sampling failed", case(vec![]));
+        return;
+    };
+    let mut lip = [0.0f64; 2];
+    let mut mag = [0.0f64; 2];
+    for j in 0..2 {
+        for i in 1..fine.len() {
+            let dx = fine[i] - fine[i - 1];
+            if dx > 0.0 {
+                lip[j] = lip[j].max(((fv[[i, j]] - fv[[i - 1, j]]) / dx).abs());
+            }
+            mag[j] = mag[j].max(fv[[i, j]].abs());
+        }
+    }
+    // queries: images of the range ends and of interior points, and their 1-2 ulp neighbours
+    let mut qs = vec![];
+    let mut ks = vec![];
+    for &k in &job.ks {
+        for base in [x[0], x[n - 1], x[0] + 0.37 * pf, x[1]] {
+            let e = base + k as f64 * pf;
+            for v in [e, e.next_up(), e.next_down(), e.next_up().next_up(), e.next_down().next_down()] {
+                qs.push(v);
+                ks.push(k);
+            }
+        }
+    }
+    // exact wrap of every float query
+    let wrap = |q: f64| -> (Rat, f64) {
+        let qr = Rat::from_f64(q);
+        let mut m = ((q - x[0]) / pf).floor() as i128;
+        loop {
+            let w = qr - Rat::int(m) * p;
+            if w < x0 {
+                m -= 1;
+            } else if w >= xn {
+                m += 1;
+            } else {
+                return (w, w.to_f64());
+            }
+        }
+    };
+    let wr: Vec<(Rat, f64)> = qs.iter().map(|&q| wrap(q)).collect();
+    let wq: Vec<f64> = wr.iter().map(|w| w.1.clamp(x[0], x[n - 1])).collect();
+    let Ok(refv) = call1d(&plain, &wq, &[wq.len()], 2, "interp_array/static") else {
+        out.violate(format!("{key}:ref"), "in-range reference evaluation failed", case(vec![]));
+        return;
+    };
+    for (call, sh) in [("interp_array/static", vec![qs.len()]), ("interp", vec![qs.len()])] {
+        out.transitions += 1;
+        let res = match call1d(&ip, &qs, &sh, 2, call) {
+            Ok(r) => r,
+            Err(f) => {
+                out.outcome(format!("decimal:{call}:{}", f.class()));
+                out.violate(format!("{key}:{call}:rejected"), format!("a finite query was not answered by the periodic extrapolating spline: {}", f.text()), case(vec![("call", Json::str(call))]));
+                continue;
+            }
+        };
+        out.outcome(format!("decimal:{call}:Ok"));
+        let mut reported = false;
+        for (qi, &q) in qs.iter().enumerate() {
+            for j in 0..2 {
+                // rounding of the wrapped argument: two roundings at the magnitude of q, one at the
+                // magnitude of the axis, plus the rounding of the reference argument itself
+                let arg_err = 4.0 * f64::EPSILON * (q.abs() + x[0].abs() + pf);
+                let tol = 64.0 * f64::EPSILON * mag[j] + 2.0 * lip[j] * arg_err;
+                let err = (res[[qi, j]] - refv[[qi, j]]).abs();
+                out.evals += 1;
+                out.nontrivial += 1;
+                out.maximum("decimal_err_over_tol", err / tol);
+                if !(err <= tol) && !reported {
+                    reported = true;
+                    out.violate(
+                        format!("{key}:{call}:lane{j}"),
+                        format!("S({q:e}) = {:e} ({} periods away) but the spline at the wrapped argument {:e} is {:e} (err {err:e}, tol {tol:e})", res[[qi, j]], ks[qi], wq[qi], refv[[qi, j]]),
+                        case(vec![("call", Json::str(call)), ("query", Json::Num(q)), ("periods", Json::Int(ks[qi] as i128)), ("wrapped", Json::Num(wq[qi]))]),
+                    );
+                }
+            }
+        }
+    }
+    if out.sample.is_none() {
+        out.sample = Some(case(vec![("queries", Json::Int(qs.len() as i128))]));
+    }
+}
+
 fn body(ctx: &Ctx) -> (Summary, Meta) {
     let quick = ctx.quick();
     let kv = ks(quick);
@@ -206,10 +322,26 @@ fn body(ctx: &Ctx) -> (Summary, Meta) {
             jobs.push(Job { ax: a.clone(), f32, ks: kv.clone() });
         }
     }
+    // non-dyadic axes
+    let n_dyadic = jobs.len();
+    for (name, x) in [
+        ("dec[0.7..2.9]", vec![0.7, 1.3, 2.9]),
+        ("dec[-2.8..1.6]", vec![-2.8, -1.1, 0.3, 1.6]),
+        ("dec[0.1..0.7]", vec![0.1, 0.2, 0.4, 0.7]),
+        ("dec[10.3..13.7]", vec![10.3, 11.1, 12.9, 13.7]),
+        ("dec[-0.3..0.3]", vec![-0.3, -0.1, 0.0, 0.3]),
+        ("dec[1e-3..7e-3]", vec![1e-3, 2.5e-3, 4e-3, 7e-3]),
+        ("dec[-1/3..2/3]", vec![-1.0 / 3.0, 0.1, 0.5, 2.0 / 3.0]),
+    ] {
+        jobs.push(Job { ax: Axis::new(name.into(), x), f32: false, ks: kv.clone() });
+    }
     let njobs = jobs.len();
-    let sum = run_jobs(ctx, "periodic", &jobs, |j| j.key(), |j| {
+    let jobs_idx: Vec<(usize, &Job)> = jobs.iter().enumerate().collect();
+    let sum = run_jobs(ctx, "periodic", &jobs_idx, |j| if j.0 >= n_dyadic { format!("f64:decimal:{}", j.1.ax.name) } else { j.1.key() }, |&(idx, j)| {
         let mut out = JobOut::default();
-        if j.f32 {
+        if idx >= n_dyadic {
+            run_decimal(j, &mut out);
+        } else if j.f32 {
             run::<f32>(j, &mut out);
         } else {
             run::<f64>(j, &mut out);
@@ -217,7 +349,7 @@ fn body(ctx: &Ctx) -> (Summary, Meta) {
         out
     });
     let meta = Meta {
-        rule: "every axis word (n>=3, 5 offsets incl. axes that exclude the origin) with periodic-closed lanes, Periodic boundary + extrapolate(true); queries x + kP for every in-range grid query x and every k of the list, plus the 1 and 2 ulp neighbours of every image of the range start; oracle = certified exact periodic spline evaluated at the *exactly* wrapped float query; 3 call forms. Non-trivial = k != 0.".into(),
+        rule: "every axis word (n>=3, 5 offsets incl. axes that exclude the origin) with periodic-closed lanes, Periodic boundary + extrapolate(true); queries x + kP for every in-range grid query x and every k of the list, plus the 1 and 2 ulp neighbours of every image of the range start; oracle = certified exact periodic spline evaluated at the *exactly* wrapped float query; 3 call forms. Plus 7 axes with non-dyadic knots: images of range ends / knots / interior points and their 1-2 ulp neighbours for every k, compared with the implementation's in-range value at the exactly wrapped argument (Lipschitz allowance), and never rejected. Non-trivial = k != 0.".into(),
         bounds: format!("{njobs} (type, axis) jobs, {} values of k in [-10^6, 10^6]: {:?}; tier {}", kv.len(), if quick { kv.clone() } else { vec![] }, ctx.tier.name()),
         assumptions: vec!["tolerance K eps scale + Lipschitz * 2 eps (|q| + |x0| + P): rounding of the wrapped argument as allowed by the statement".into()],
         extra: vec![],
